@@ -270,7 +270,8 @@ func (u *Unit) frameCheckWith(st *State, pos token.Pos, resBinds map[string]Valu
 					if v.K == vSlice {
 						el := v.Typ.Underlying().(*types.Slice).Elem()
 						t := get("E:" + typeKey(el))
-						t.refs = append(t.refs, v.Comp["#arr"].T)
+						arrT, _ := u.resolveView(v.Comp["#arr"].T, "0")
+						t.refs = append(t.refs, arrT)
 					}
 					continue
 				case "mapof":
